@@ -292,7 +292,7 @@ def check_inline(ctx, prog):
             else:
                 ctx.violation('C04.inline', f['pq'], role, where, 'the dominating guards admit %s, for which `%s` exceeds the %d-byte inline buffer (a string of exactly that length overruns it)' % (
                     ', '.join('%s = %s' % kv for kv in sorted(info.items())), pe(size), cap))
-    ctx.floor('C04.inline copy sites', n, 5)
+    ctx.floor('C04.inline copy sites', n, 2)
 
 
 def conjuncts(c):
